@@ -23,6 +23,7 @@ RULE = (
     "(initial draw, kernel target, post-mutation re-evaluation, enlargement, evidence samples...)."
 )
 RULE += " " + ('For SMC samplers in half of the cases the same sampler object is run a second time: every call of that run is checked too and the count covers both runs.')
+RULE += " " + ('A quarter of those second runs happen inside an enable_pool context entered after the sampler object was built.')
 ASSUMPTIONS = [
     "kernel packages are harness doubles (every target evaluation of the kernel goes through aspire's own log_prob)",
     "prior comparison tolerance 4e-6*(|v|+1) for float32 populations, 1e-12*(|v|+1) for float64",
